@@ -21,6 +21,7 @@ def run(ctx):
     argument_triple(ctx)
     alias_triple(ctx)
     fresh_index(ctx)
+    no_fabricated_node_index(ctx)
     import cachewriters
     cachewriters.check(ctx, "R02.9")
     export_triple(ctx)
@@ -99,6 +100,22 @@ def alias_triple(ctx):
     q = [t for t in f.calls() if t.path == GR + "CompositionGraph::get_alias_source"]
     ok = bool(q) and all(any(i == 3 for fid, i in prov.slice(f, t.args[1]).params) for t in q)
     ctx.ob("R02.2", "alias-of-this-node", ok, "the alias source is queried for the node being encoded" if ok else "get_alias_source is not asked about the node being encoded", site=f.span)
+
+
+def no_fabricated_node_index(ctx):
+    """R02.6: the encoder looks nodes up by the indices the graph hands out (`node_indices()`, edge endpoints, export map);
+    in a StableGraph a node's *position* in an iteration is not its index once a node was removed, so `NodeIndex::new(pos)`
+    in the encoder attaches names / wiring to another node."""
+    db = ctx.db
+    bad = []
+    for f in db.fns.values():
+        if f.crate != "wac_graph" or f.from_expansion or not f.id.startswith(GR + "CompositionGraphEncoder"):
+            continue
+        for t in f.calls():
+            if (t.path or "").endswith(("graph_impl::NodeIndex::new", "NodeIndex::new", "graph_impl::node_index")) and "petgraph" in (t.path or ""):
+                bad.append("%s in %s" % (t.span, f.id))
+    ctx.ob("R02.6", "no-fabricated-node-index", not bad, "the encoder never builds a NodeIndex from a number" if not bad else
+           "the encoder builds a NodeIndex from a position (%s): after a node removal positions and indices of the StableGraph differ, the item is attributed to another node" % "; ".join(bad))
 
 
 def fresh_index(ctx):
